@@ -1,4 +1,4 @@
-//! tvharness <property> --out DIR [--tier quick|thorough] [--seed N] [--case K] [--cases N]
+//! tvharness <property> --out DIR [--tier quick|thorough] [--seed N] [--case K] [--cases N] [--scale K]
 //! Runs the real taffy code in-process on generated cases and writes
 //!   DIR/req.txt   one request per line (the Lean driver reads this)
 //!   DIR/impl.txt  the implementation's canonical answer per request
@@ -31,12 +31,12 @@ use common::*;
 fn main() {
     let args: Vec<String> = std::env::args().collect();
     if args.len() < 2 {
-        eprintln!("usage: tvharness <property> --out DIR [--tier T] [--seed N] [--case K] [--cases N]");
+        eprintln!("usage: tvharness <property> --out DIR [--tier T] [--seed N] [--case K] [--cases N] [--scale K]");
         std::process::exit(2);
     }
     let prop = args[1].clone();
     let mut out_dir = String::from("/verif/.cache/run/tmp");
-    let mut cfg = Cfg { tier: "quick".into(), seed: 1, only_case: None, cases: None };
+    let mut cfg = Cfg { tier: "quick".into(), seed: 1, only_case: None, cases: None, scale: 1 };
     let mut from = 0u64;
     let mut to = 0u64;
     let mut i = 2;
@@ -68,6 +68,10 @@ fn main() {
             }
             "--cases" => {
                 cfg.cases = Some(args[i + 1].parse().unwrap());
+                i += 2
+            }
+            "--scale" => {
+                cfg.scale = args[i + 1].parse().unwrap();
                 i += 2
             }
             x => {
